@@ -18,9 +18,12 @@ from . import hirq
 from . import linform as L
 
 ONE = L.ONE
-ATOM_METHODS = {"abs", "max", "min", "floor", "ceil", "round", "sqrt", "powi", "hypot", "signum", "sin", "cos", "tan", "to_radians", "to_degrees", "atan2", "rem_euclid", "clamp", "mul_add", "trunc"}
-COMMUTATIVE = {"max", "min", "hypot"}
-TRANSPARENT = {"clone", "to_owned", "into", "copied", "cloned", "borrow", "as_ref", "deref", "unwrap_or_default"}
+ATOM_METHODS = {
+    "abs", "max", "min", "floor", "ceil", "round", "sqrt", "powi", "powf", "hypot", "signum", "sin", "cos", "tan", "asin", "acos", "atan", "to_radians",
+    "to_degrees", "atan2", "rem_euclid", "div_euclid", "clamp", "mul_add", "trunc", "fract", "ln", "exp", "log10", "log2", "is_nan",
+}
+COMMUTATIVE = {"max", "min", "hypot", "and", "or", "xor", "eq", "ne"}
+TRANSPARENT = {"clone", "to_owned", "into", "copied", "cloned", "borrow", "as_ref", "deref", "unwrap_or_default", "as_slice", "into_iter", "iter"}
 
 
 _MISSING = object()
@@ -51,6 +54,12 @@ def canon(v):
         return str(v[1]).lower()
     if v[0] == "any":
         return "<any>"
+    if v[0] == "err":
+        return "Err"
+    if v[0] == "never":
+        return "!"
+    if v[0] == "early":
+        return "early[" + " | ".join(canon(x) for x in v[1]) + "]"
     if v[0] == "some":
         return "Some(" + canon(v[1]) + ")"
     if v[0] == "none":
@@ -116,6 +125,15 @@ def equal(a, b):
     return False
 
 
+class _Return(Exception):
+    def __init__(self, value):
+        self.value = value
+
+
+def _is_err(v):
+    return v is not None and not is_form(v) and v[0] == "err"
+
+
 class Evaluator:
     def __init__(self, prog, inline_prefixes=("svgdx::",), max_depth=4, opaque=(), presets=None, type_alias=None, watch=(), name_case=None, transparent=(), iflet=None):
         self.prog = prog
@@ -155,9 +173,16 @@ class Evaluator:
                 env[name] = val
             elif p.get("p") == "tuple":
                 self._bind(p, val if val is not None else ("obj", f"${i}"), env)
-        st = {"self_after": None, "depth": depth}
-        ret = self.eval(h["body"], env, st)
-        return {"ret": ret, "self": st["self_after"]}
+        st = {"self_after": None, "depth": depth, "early": []}
+        try:
+            ret = self.eval(h["body"], env, st)
+        except _Return as r:
+            ret = r.value
+        # early `return None` / `return Ok(None)` exits are guards (value absent), not alternative results
+        st["early"] = [v for v in st["early"] if not (v is not None and not is_form(v) and v[0] == "none")]
+        if st["early"]:
+            ret = ("early", st["early"] + [ret])
+        return {"ret": ret, "self": st["self_after"], "early": st["early"]}
 
     def _param_value(self, name, pat):
         return ("obj", name)
@@ -176,6 +201,8 @@ class Evaluator:
                     sub = val[1][i]
                 elif val is not None and not is_form(val) and val[0] == "obj":
                     sub = ("obj", f"{val[1]}.{i}")
+                elif is_form(val) and len(val) == 1 and ONE not in val and list(val.values())[0] == 1:
+                    sub = ("obj", f"{list(val)[0]}.{i}")  # component of an opaque tuple-valued term
                 self._bind(q, sub, env, counter)
         elif p == "ref":
             self._bind(pat["sub"], val, env, counter)
@@ -324,7 +351,7 @@ class Evaluator:
                     else:
                         env[name] = old
         if k == "Ret":
-            return self.eval(n.get("x") or n.get("e"), env, st) if (n.get("x") or n.get("e")) else ("tup", [])
+            raise _Return(self.eval(n.get("x") or n.get("e"), env, st) if (n.get("x") or n.get("e")) else ("tup", []))
         if k == "If":
             env_t = dict(env)
             undecided_let = False
@@ -345,8 +372,30 @@ class Evaluator:
                     return self.eval(n["then"], env, st)
                 return self.eval(n["else"], env, st) if n.get("else") else ("tup", [])
             env_e = dict(env)
-            t = self.eval(n["then"], env_t, st)
-            e = self.eval(n["else"], env_e, st) if n.get("else") else ("tup", [])
+            rt = re_ = None
+            try:
+                t = self.eval(n["then"], env_t, st)
+            except _Return as r:
+                rt, t = r, ("never",)
+            try:
+                e = self.eval(n["else"], env_e, st) if n.get("else") else ("tup", [])
+            except _Return as r:
+                re_, e = r, ("never",)
+            if rt is not None and re_ is not None:
+                if _is_err(rt.value):
+                    raise re_
+                if _is_err(re_.value):
+                    raise rt
+                raise _Return(rt.value if equal(rt.value, re_.value) else self._join(c, rt.value, re_.value))
+            if rt is not None or re_ is not None:
+                # one branch leaves the function: the code after the `if` runs in the other branch's state
+                r = rt or re_
+                if not _is_err(r.value):
+                    st["early"].append(r.value)
+                live = env_e if rt is not None else env_t
+                for name in list(env):
+                    env[name] = live.get(name)
+                return e if rt is not None else t
             for name in list(env):
                 vt, ve = env_t.get(name), env_e.get(name)
                 if vt is ve or equal(vt, ve):
@@ -370,8 +419,12 @@ class Evaluator:
             if x is not None and not is_form(x) and x[0] == "match" and (is_form(y) or (y is not None and y[0] == "match")):
                 if is_form(y):
                     return ("match", {k: (self._binary(op, v, y) if left else self._binary(op, y, v)) for k, v in x[1].items()})
+        if op in ("Eq", "Ne") and a is not None and b is not None and not (is_form(a) and is_form(b)):
+            return atom(op.lower(), sorted([a, b], key=canon))
         if not (is_form(a) and is_form(b)):
             return None
+        if op in ("And", "Or", "BitXor", "BitAnd", "BitOr"):
+            return atom({"And": "and", "Or": "or", "BitXor": "xor", "BitAnd": "and", "BitOr": "or"}[op], sorted([a, b], key=canon))
         if op == "Add":
             return L._add(a, b)
         if op == "Sub":
@@ -440,7 +493,7 @@ class Evaluator:
                 env[l["res"]["local"]] = self._binary(op, cur, r) if op in ("Add", "Sub", "Mul", "Div") else None
             return None
         if k == "Ret":
-            return ("ret", self.eval(s.get("x") or s.get("e"), env, st) if (s.get("x") or s.get("e")) else ("tup", []))
+            raise _Return(self.eval(s.get("x") or s.get("e"), env, st) if (s.get("x") or s.get("e")) else ("tup", []))
         # expression statements: evaluated for their effect on *self
         self.eval(s, env, st)
         return None
@@ -550,7 +603,11 @@ class Evaluator:
                 if arm.get("guard"):
                     name += " if ?"
                 if name not in arms:
-                    arms[name] = self.eval(arm["body"], e2, st)
+                    try:
+                        arms[name] = self.eval(arm["body"], e2, st)
+                    except _Return as r:
+                        if not _is_err(r.value):
+                            arms[name] = r.value
         return ("match", arms)
 
     def _method(self, n, env, st):
@@ -611,6 +668,8 @@ class Evaluator:
                 return ("some", args[0])
             if last in ("Ok",) and len(args) == 1:
                 return args[0]
+            if last == "Err":
+                return ("err",)
             return ("struct", {str(i): a for i, a in enumerate(args)})
         target = path
         if res.get("selfty") or path.startswith("Self::"):
@@ -778,6 +837,14 @@ class RefParser:
             if self.peek() != ")":
                 raise ValueError("expected ) in " + self.s)
             self.i += 1
+            if self.i < len(self.s) and self.s[self.i] == "." and self.i + 1 < len(self.s) and self.s[self.i + 1].isdigit():
+                j = self.i + 1
+                while j < len(self.s) and self.s[j].isdigit():
+                    j += 1
+                comp = self.s[self.i + 1:j]
+                self.i = j
+                at = atom(name, args)
+                return {f"{list(at)[0]}.{comp}": Fraction(1)}
             if name == "mul" and len(args) == 2 and all(is_form(a) for a in args):
                 ca, cb = L._const(args[0]), L._const(args[1])
                 if cb is not None:
